@@ -5,8 +5,17 @@ configurations; single-flight / one recovery per loss over every interleaving (v
 -/
 import OAP.Model.Client.Reconnect
 import OAP.Model.Client.SingleFlight
+import OAP.Gen.Facts
 namespace OAP.C08
 open OAP OAP.Reconnect
+
+/-- T2 structure facts, regenerated from go/client on every run (the operations themselves, in source order): reconnect(): old conn closed, waiters failed under their mutex, THEN dial, then auth / resume; the retry loop checks the closed signal at the top and before the callback, hit-max goes through Close; reconnectDial falls back to auth -/
+theorem source_order :
+    Gen.seq_client_reconnect = ["c.stateMu.Lock", "c.stateMu.Unlock", "c.stateMu.Unlock", "c.RLock", "c.RUnlock", "old.Close", "c.recvsMu.Lock", "close:w.ch", "c.recvsMu.Unlock", "c.dial", "c.stateMu.Lock", "c.stateMu.Unlock", "c.isAuthExpired", "c.auth", "c.reconnectDial"] ∧
+    Gen.seq_client_reconnecting = ["c.closed", "c.Lock", "c.Unlock", "c.Unlock", "go", "defer:send:waitCh", "c.closed", "c.reconnect", "c.closed", "c.afterReconnected", "c.Close", "time.Sleep", "recv:waitCh", "c.Lock", "c.Unlock"] ∧
+    Gen.seq_client_reconnectDial = ["c.Do", "c.auth", "c.stateMu.Lock", "c.stateMu.Unlock"] := by
+  decide
+
 
 /-- the stored session is presented exactly when there is one and it is unexpired (10 s safety margin) -/
 theorem uses_session_iff_unexpired (cfg : Cfg) (st : RS) (env : Env) :
